@@ -25,8 +25,12 @@ def dispatch_code_objects():
                     c = getattr(f, "__code__", None)
                     if c is not None:
                         codes.append(c)
-    for f in (Event.__call__, StateMachine.send, StateMachine._put_nonblocking, StateMachine._processing_loop):
-        codes.append(f.__code__)
+    for owner, name in ((Event, "__call__"), (StateMachine, "send"), (StateMachine, "_put_nonblocking"),
+                        (StateMachine, "_processing_loop")):
+        f = owner.__dict__.get(name)      # private helpers may be renamed: instrument what exists
+        c = getattr(f, "__code__", None)
+        if c is not None:
+            codes.append(c)
     cs = StateMachine.__dict__.get("current_state")
     if isinstance(cs, property):
         codes += [cs.fget.__code__, cs.fset.__code__]
